@@ -29,6 +29,7 @@ type Op struct {
 	Armed bool   // R/W: a non-zero deadline lying in the future was set when the call started
 	Err   string // R/W: error text ("" = none)
 	Zero  bool   // D: the deadline was cleared (zero time)
+	Dir   byte   // D: which deadline: 'B' SetDeadline, 'R' SetReadDeadline, 'W' SetWriteDeadline (add-only field)
 }
 
 // Conn is one end of a buffered in-memory duplex connection with deadline support.
@@ -167,7 +168,7 @@ func (c *Conn) SetDeadline(t time.Time) error {
 	c.rdl, c.wdl = t, t
 	c.deadlines++
 	c.mu.Unlock()
-	c.log(Op{Kind: 'D', Zero: t.IsZero()})
+	c.log(Op{Kind: 'D', Zero: t.IsZero(), Dir: 'B'})
 	c.rd.mu.Lock()
 	c.rd.cond.Broadcast()
 	c.rd.mu.Unlock()
@@ -179,7 +180,7 @@ func (c *Conn) SetReadDeadline(t time.Time) error {
 	c.rdl = t
 	c.deadlines++
 	c.mu.Unlock()
-	c.log(Op{Kind: 'D', Zero: t.IsZero()})
+	c.log(Op{Kind: 'D', Zero: t.IsZero(), Dir: 'R'})
 	c.rd.mu.Lock()
 	c.rd.cond.Broadcast()
 	c.rd.mu.Unlock()
@@ -191,7 +192,7 @@ func (c *Conn) SetWriteDeadline(t time.Time) error {
 	c.wdl = t
 	c.deadlines++
 	c.mu.Unlock()
-	c.log(Op{Kind: 'D', Zero: t.IsZero()})
+	c.log(Op{Kind: 'D', Zero: t.IsZero(), Dir: 'W'})
 	return nil
 }
 
